@@ -558,9 +558,9 @@ theorem C13_file_fail_exit (env : Env) (enum : List String → List String) (pre
   unfold collectReports
   simp only [Generated.collectDupSignaturePass, ↓reduceIte, failDups]
   apply failDupsLoop_fail
-  unfold rawReports
+  unfold rawReports pathReports
   simp only [hfiles]
-  exact List.mem_append.2 (Or.inl (foldl_collectStep_split env enum pre post p _ _ hf))
+  exact List.mem_append.2 (Or.inl (List.mem_append.2 (Or.inl (foldl_collectStep_split env enum pre post p _ _ hf))))
 
 /-- A raising decorator hook (duplicate ids, duplicated function objects) turns the whole file into one
 failed report. -/
